@@ -1377,7 +1377,7 @@ fn feed(dec: Dec, stream: &[u8], cuts: &[usize], acc: &mut Acc) -> Result<Vec<T>
     Ok(frames)
 }
 
-fn check_stream(acc: &mut Acc, fs: &[&(T, Vec<u8>)]) {
+fn check_stream(acc: &mut Acc, fs: &[&(T, Vec<u8>)], all_cuts: bool) {
     let stream: Vec<u8> = fs.iter().flat_map(|f| f.1.iter().copied()).collect();
     let f1 = &fs[0].0;
     let l1 = fs[0].1.len();
@@ -1432,8 +1432,10 @@ fn check_stream(acc: &mut Acc, fs: &[&(T, Vec<u8>)]) {
         }
         // whole, every 1-cut fragmentation, byte-by-byte
         let mut modes: Vec<(&'static str, Vec<usize>)> = vec![("whole", vec![])];
-        for i in 1..stream.len() {
-            modes.push(("one-cut", vec![i]));
+        if all_cuts {
+            for i in 1..stream.len() {
+                modes.push(("one-cut", vec![i]));
+            }
         }
         modes.push(("byte-by-byte", (1..stream.len()).collect()));
         for (mode, cuts) in modes {
@@ -1648,7 +1650,7 @@ fn child_replay(args: &vh::Args) -> ! {
                 .collect();
             let refs: Vec<&(T, Vec<u8>)> = frames.iter().collect();
             if !refs.is_empty() {
-                check_stream(&mut acc, &refs);
+                check_stream(&mut acc, &refs, true);
             }
         }
         "roundtrip" => {
@@ -1908,11 +1910,11 @@ fn main() {
     let sres = par::par_map_n(workers, &pairs, |_, &(a, bopt)| {
         let mut acc = Acc::default();
         match bopt {
-            None => check_stream(&mut acc, &[&frames[a]]),
+            None => check_stream(&mut acc, &[&frames[a]], true),
             Some(b) => {
-                check_stream(&mut acc, &[&frames[a], &frames[b]]);
+                check_stream(&mut acc, &[&frames[a], &frames[b]], true);
                 for c in 0..nf {
-                    check_stream(&mut acc, &[&frames[a], &frames[b], &frames[c]]);
+                    check_stream(&mut acc, &[&frames[a], &frames[b], &frames[c]], tier == Tier::Thorough);
                 }
             }
         }
@@ -1930,7 +1932,7 @@ fn main() {
         })
         .collect();
     let stream_json = json!({
-        "frames_in_generator": nf, "streams": stracc.inputs, "feeding_modes_per_stream": "whole, every 1-cut, byte-by-byte; plus parse of every prefix",
+        "frames_in_generator": nf, "streams": stracc.inputs, "feeding_modes_per_stream": if tier == Tier::Thorough { "parse of every prefix; fed whole, with every 1-cut, byte-by-byte" } else { "parse of every prefix; fed whole and byte-by-byte; every 1-cut for streams of 1-2 frames (3-frame 1-cuts only in thorough)" },
         "outcomes_over_all_prefixes": outcome_json(&stracc.hist),
     });
 
